@@ -443,13 +443,50 @@ def histories(ctx, arg, rec):
     run_hypothesis(rec, history_strategy(), oracle_history, n, sub_seed(ctx.seed, PROPERTY, "hist", shard))
 
 
+# ---- artefacts: the ranges the emitted operations are given ----------------------------------------------------------
+def artefact_case(case, rec=None):
+    """compiled networks (convolutions that share weight tensors, several cores / depth slices): every kernel operation's weight and scale ranges - as programmed in the stream,
+    i.e. after create_weights picked them from encoded_ranges - must hold one record per channel of that (core, slice) with the channel's own bias and scale and the weights of
+    exactly those channels.  The decoding is C09's artefact oracle (scale records) and the simulator's weight decoder; failures are reported under C08."""
+    from props import c09
+
+    try:
+        c09.artefact_case(case, rec)
+    except Violation as v:
+        if v.key.startswith("C09/"):
+            raise Violation("C08/artefact/" + v.key.split("/", 2)[2], v.message, case)
+        raise
+
+
+def artefacts(ctx, arg, rec):
+    import e2e
+    from hypothesis import strategies as st
+
+    shard, n = arg
+    base = e2e.case_strategy("convs", max_ops=2, big=False, dtypes=("int8", "int8", "uint8", "int16"))
+
+    def bias(c):
+        # two-core accelerator or a small arena cache (depth slices) half of the time: more than one (core, slice) range per operation
+        c = dict(c, cfg=dict(c["cfg"]))
+        if shard % 2 == 0:
+            c["cfg"]["accel"] = "ethos-u65-512"
+        else:
+            c["cfg"]["arena_cache_size"] = 4096
+        return c
+
+    run_hypothesis(rec, base.map(bias), artefact_case, n, sub_seed(ctx.seed, PROPERTY, "artefact", shard))
+
+
 def parts(ctx):
     q = ctx.quick
-    return [Part("single%02d" % i, singles, (i, 60 if q else 4000)) for i in range(10)] + [Part("hist%02d" % i, histories, (i, 30 if q else 900)) for i in range(6)]
+    return [Part("single%02d" % i, singles, (i, 60 if q else 4000)) for i in range(10)] + [Part("hist%02d" % i, histories, (i, 30 if q else 900)) for i in range(6)] + [
+        Part("artefact%02d" % i, artefacts, (i, 25 if q else 600)) for i in range(4)]
 
 
 def replay(ctx, case):
-    if case.get("kind") == "history":
+    if "spec" in case:
+        artefact_case(case, None)
+    elif case.get("kind") == "history":
         oracle_history(case, None)
     else:
         oracle_single(case, None)
